@@ -1175,15 +1175,18 @@ func callBuiltin(caller *frame, callpos token.Pos, fn *ssa.Builtin, args []value
 		if isStr(args[1]) {
 			// append([]byte, ...string) []byte
 			arg0 := args[0].([]value)
-			return appendCells(arg0, strCells(args[1]))
+			return caller.appendMon(arg0, strCells(args[1]))
 		}
 		// append([]T, ...[]T) []T
-		return appendCells(args[0].([]value), args[1].([]value))
+		return caller.appendMon(args[0].([]value), args[1].([]value))
 
 	case "copy": // copy([]T, []T) int or copy([]byte, string) int
 		src := args[1]
 		if isStr(src) {
 			src = strCells(src)
+		}
+		if dst := args[0].([]value); caller.i.mon != nil && len(dst) > 0 && len(src.([]value)) > 0 {
+			caller.monitorStore(&dst[0], "copy")
 		}
 		return copy(args[0].([]value), src.([]value))
 
@@ -1437,6 +1440,25 @@ func appendCells(dst, src []value) []value {
 	return append(dst, src...)
 }
 
+// appendMon is append under the write-set monitor: growth allocates memory
+// owned by the call, appending in place writes the existing backing array.
+func (fr *frame) appendMon(dst, src []value) []value {
+	m := fr.i.mon
+	if m == nil || len(src) == 0 {
+		return append(dst, src...)
+	}
+	if len(dst)+len(src) > cap(dst) {
+		nc := 2*cap(dst) + len(src)
+		out := make([]value, len(dst), nc)
+		copy(out, dst)
+		m.ownSlice(out)
+		return append(out, src...)
+	}
+	full := dst[:cap(dst)]
+	fr.monitorStore(&full[len(dst)], "append in place")
+	return append(dst, src...)
+}
+
 // widen widens a basic typed value x to the widest type of its
 // category, one of:
 //
@@ -1530,6 +1552,11 @@ func conv(t_dst, t_src types.Type, x value) value {
 			if d.Elem().Underlying().(*types.Basic).Kind() == types.Byte {
 				out := make([]value, len(sx.b))
 				copy(out, sx.b)
+				if sx.b != nil && len(out) > 0 && sx.b[0] != nil {
+					if s0, ok := sx.b[0].(sv); ok && s0.T.tt.i != nil {
+						s0.T.tt.i.mon.ownSlice(out)
+					}
+				}
 				return out
 			}
 			panic(engineError{"not encodable: []rune(symbolic string)"})
